@@ -2,10 +2,10 @@ package main
 
 import (
 	"fmt"
-	"math"
-	"strconv"
 	"go/types"
+	"math"
 	"sort"
+	"strconv"
 	"strings"
 
 	"golang.org/x/tools/go/ssa"
@@ -706,6 +706,43 @@ func runC03(c *Ctx) {
 				})
 			}
 			c.R.check(ok && has && usesOff && usesMul, "C03-D3", name+"/bound/"+side.fld, shortFn(mi.ctor), c.fpos(mi.ctor), side.outer+"(… index bound "+side.cst+" with the same offset and multiplier …, float range bound)", fmt.Sprint(v))
+			// the safety margin is one unit of the logarithm, i.e. it is added to the exponent AFTER the division by
+			// the multiplier: exp((bound − offset)/multiplier ± 1). Inside the division it would be a margin of a single
+			// index, which the interpolated logarithms (they lag the exact one by a fraction of a unit) overrun.
+			margin := false
+			wantOp := "+"
+			if side.outer == "math.Min" {
+				wantOp = "-"
+			}
+			if v != nil {
+				v.walk(func(x *Term) bool {
+					if x.Op != "call" || x.Sym != "math.Exp" && x.Sym != "math.Exp2" || len(x.Args) != 1 {
+						return true
+					}
+					e := x.Args[0]
+					var q, k *Term
+					switch {
+					case e.isBin("+") && wantOp == "+":
+						for i := 0; i < 2; i++ {
+							if e.Args[i].Op == "const" {
+								k, q = e.Args[i], e.Args[1-i]
+							}
+						}
+					case e.isBin("-") && wantOp == "-":
+						q, k = e.Args[0], e.Args[1]
+					}
+					if q == nil || k == nil || k.Op != "const" || !q.isBin("/") {
+						return true
+					}
+					kv, err := strconv.ParseFloat(k.Sym, 64)
+					num := q.Args[0]
+					if err == nil && kv >= 1 && num.isBin("-") && num.Args[0].isConst(side.cst) && num.Args[1].isParam(1) {
+						margin = true
+					}
+					return true
+				})
+			}
+			c.R.check(margin, "C03-D3", name+"/bound/"+side.fld+"/margin-in-the-exponent", shortFn(mi.ctor), c.fpos(mi.ctor), "exp(("+side.cst+" − offset)/multiplier "+wantOp+" 1): the unit margin is applied after the division", fmt.Sprint(v))
 		}
 		// D4: the reported accuracy inverts the construction formula (constants only are evaluated)
 		k1 := c03AccuracyInverse(c, mi)
